@@ -4,3 +4,5 @@
 package tengo
 
 func verifAt(site int, c *Compiled, v *VM) {}
+
+func verifOrder(names []string) []string { return names }
